@@ -26,6 +26,7 @@ func main() {
 	goarch := flag.String("goarch", "", "GOARCH override")
 	dump := flag.String("dump", "", "debug: print normalised SSA of the named function")
 	genp := flag.Bool("genparams", false, "development: print the frozen parameter-name table")
+	genk := flag.Bool("genknown", false, "development: print the table of known functions (names and flattened signatures)")
 	flag.Parse()
 	if *evdir == "" {
 		*evdir = filepath.Join(*verif, "evidence")
@@ -35,7 +36,7 @@ func main() {
 		*tier = t
 	}
 	start := time.Now()
-	p, err := an.Load(an.LoadOptions{Dir: *repo, Tags: *tags, GOARCH: *goarch})
+	p, err := an.Load(an.LoadOptions{Dir: *repo, Tags: *tags, GOARCH: *goarch, NoCanon: *genk || *genp})
 	if err != nil {
 		fmt.Printf("UNDECIDED property=%s load failed: %v\n", *prop, err)
 		os.Exit(2)
@@ -43,6 +44,20 @@ func main() {
 	if *genp {
 		genParamNames(p)
 		return
+	}
+	if *genk {
+		genKnownFuncs(p)
+		return
+	}
+	if d := os.Getenv("VERIF_DUMP_CANON"); d != "" && p.Canon != nil {
+		for n, b := range p.Canon.Overlay {
+			os.WriteFile(filepath.Join(d, filepath.Base(n)), b, 0o644)
+		}
+	}
+	if p.Canon != nil {
+		for _, n := range p.Canon.Notes {
+			fmt.Printf("canonicalised: %s\n", n)
+		}
 	}
 	if *dump != "" {
 		an.Dump(p, *dump)
